@@ -11,6 +11,7 @@ import CruxVerif.Lemmas.Park
 import CruxVerif.Lemmas.GPark
 import CruxVerif.Lemmas.RCore
 import CruxVerif.Lemmas.LQ
+import CruxVerif.Lemmas.Complete
 namespace Props.C07
 open M.Rt
 
@@ -347,6 +348,55 @@ example : ((M.Hosts.runDirect (.task handoffProg) false handoffActs).map fun r =
      (r.2.w.cmd r.2.cid).tasks.values.map (fun t => goneOnlyB t.fut && !(r.2.w.getMeta t.serial).aborted))) =
     some (true, [], [true]) := by decide +kernel
 
+/-- **COMPLETENESS OF EVICTION for tasks that wait only on shell requests** — the last clause of the property, proved over
+    whole runs for SIMPLE task programs (`simpleIs`: emit, notify, request, stream, spawn, join, self-wake in any nesting; no
+    select, no request future handed to another task, no join handles, no abort handles, no hosted commands) under the
+    direct host: after EVERY history of resolutions, drops and polls that leaves the command settled and every request
+    channel closed (resolved-and-consumed or dropped), NO TASK REMAINS — so the command is done as soon as its outputs have
+    been taken (`done_iff`). Four global invariants meet here: `GInv` (a stored unqueued task is parked at registrations of its
+    own waker), `LQ` (a registered waker means a live sender — so with every sender gone the task is parked at closed
+    requests only), `SPc` (stored tasks stay simple: one `grind` call) and `ND` (a stored task suspended only at closed
+    requests is on the ready queue: the poll that leaves a simple task so registers its waker nowhere — `NRGood`, one
+    `grind` call — hence `run_task` evicts it unless that poll woke it). The hypothesis `hna` (no stored task was aborted
+    through a join handle) is kept explicit; simple programs have no join handles. What the fragment excludes is exactly
+    what `completeness_fails_with_handoff` needs: a registration that is made and then abandoned. -/
+theorem simple_command_done_when_all_requests_gone (is : List Instr) (hf : hostFreeIs is = true) (hs : simpleIs is = true)
+    (canon : Bool) (acts : List M.Hosts.Action) (os : List M.Hosts.Obs) (d : M.Hosts.Direct)
+    (h : M.Hosts.runDirect (.task is) canon acts = some (os, d)) (hr : (d.w.cmd d.cid).ready = [])
+    (hall : ∀ l, l < d.w.leaves.length → (d.w.leaf l).senderAlive = false ∧ (d.w.leaf l).legacy = false)
+    (hna : ∀ tid t, (d.w.cmd d.cid).tasks.get? tid = some t → (d.w.getMeta t.serial).aborted = false) (tid : Nat) :
+    (d.w.cmd d.cid).tasks.get? tid = none := by
+  cases hg : (d.w.cmd d.cid).tasks.get? tid with
+  | none => rfl
+  | some t =>
+    exfalso
+    have cl := M.Hosts.runDirect_cl is hf hs canon acts os d h
+    have gone := all_requests_gone_leaves_only_dead_waits is hf canon acts os d h hr hall tid t hg (hna tid t hg)
+    have dead := deadOnly_of_goneOnly t.fut (cl.sp.t t (M.Slab.mem_values_of_get _ _ _ hg)) gone
+    have := cl.nd tid t hg (fun e => by cases e) dead
+    rw [hr] at this
+    cases this
+
+/-- the poll that leaves a simple task suspended only at closed requests evicts it or queues it — the step `ND` rests on,
+    for every fuel, world and nesting: if `run_task` keeps such a task as `Suspended`, its id is on the ready queue -/
+theorem dead_simple_task_is_evicted_or_queued (pn : Waker → Nat → World → Option (NextRes × World)) (f : Nat) (c tid : Nat)
+    (w w' : World) (h : runTaskF (pollBlock pn f) c tid w = some (.suspended, w')) (hw : HFc c w) (hs : SPc c w) (sok : SOk w)
+    (hal : (w.cmd c).alive = true) (hin : c < w.cmds.length) (t : Task) (hg : (w'.cmd c).tasks.get? tid = some t)
+    (hd : deadOnlyB t.fut = true) : tid ∈ (w'.cmd c).ready :=
+  runTaskF_dead_queued pn f c tid w w' h hw hs sok hal hin t hg hd
+
+/-- non-vacuity: a simple program (two joined requests, a stream with a follow-up request in a spawned task) and a history
+    that closes every channel — and the handoff program is NOT simple (kernel evaluation) -/
+def simpleProg : List Instr :=
+  [.spawn 0 [.stream 1 4 (.lit 0) 0 [.req 2 5 (.var 1)]], .join [.req 1 1 (.lit 1)] [.req 3 3 (.lit 3), .emit 10 (.var 3)]]
+example : hostFreeIs simpleProg = true ∧ simpleIs simpleProg = true ∧ simpleIs handoffProg = false := by decide
+example : ((M.Hosts.runDirect (.task simpleProg) false [.drop 1, .res 2 7, .res 0 101, .drop 3, .poll, .drop 2]).map fun r =>
+    (r.2.w.leaves.all (fun lf => !lf.senderAlive && !lf.legacy), r.2.w.leaves.length, (r.2.w.cmd r.2.cid).ready,
+     (r.2.w.cmd r.2.cid).tasks.len)) = some (true, 4, [], 0) := by decide +kernel
+example : ((M.Hosts.runDirect (.task simpleProg) false [.drop 1, .res 2 7, .res 0 101, .drop 3, .poll, .drop 2]).map fun r =>
+    (r.2.w.isDoneNow r.2.cid, r.1.map (·.done))) =
+    some (true, [some false, some false, some false, some false, some true, some true, some true]) := by decide +kernel
+
 -- no `handoff` anywhere in the program
 mutual
 def handoffFreeI : Instr → Bool
@@ -361,7 +411,8 @@ def handoffFreeIs : List Instr → Bool
   | i :: is => handoffFreeI i && handoffFreeIs is
 end
 
-/-- STATED, NOT PROVED: completeness of eviction where no request future changes hands — for every host-free task program
+/-- STATED, NOT PROVED beyond the simple fragment (`simple_command_done_when_all_requests_gone` above proves it for programs
+    without select and join handles): completeness of eviction where no request future changes hands — for every host-free task program
     without `handoff` under the direct host, after every history that leaves every request channel closed and empty, the
     command is done. No counterexample in ≥ 10^6 generated histories of the `complete` stream (every rejection of its oracle
     clause is a `handoff` program); the proof needs, on top of `GInv` and the invariant "a registered waker means a live
